@@ -1,0 +1,83 @@
+//go:build verif
+
+package json
+
+// Contracts for the deductive verifier under /verif (comment-only; build tag verif).
+// The lexer in this package is generated (templates in gen/); the contracts are the family
+// contract of generated lexers, instantiated for this grammar's tables.
+
+// ---- the constant tables of the generated lexer: facts proved from the literals ----
+
+//@ table tmRuneClass
+//@   fact len(tmRuneClass) == 126
+//@   fact forall i in 0..len(tmRuneClass) :: 0 <= tmRuneClass[i] && tmRuneClass[i] < 24
+
+//@ table tmLexerAction
+//@   fact len(tmLexerAction) == 28 * 24
+//@   fact forall i in 0..len(tmLexerAction) :: -20 <= tmLexerAction[i] && tmLexerAction[i] < 28
+// the start state has no accepting entry and no checkpoint: a token or a backup position is never empty
+//@   fact forall c in 0..24 :: tmLexerAction[c] == -3 || tmLexerAction[c] >= 0
+// at the end of the input the start state reports "no match" (which Next turns into EOI)
+//@   fact tmLexerAction[0] == -3
+// rule 1 (the end-of-input token) is never an accept action of the automaton: EOI comes from Next itself
+//@   fact forall i in 0..len(tmLexerAction) :: tmLexerAction[i] != -4
+
+//@ table tmBacktracking
+//@   fact len(tmBacktracking) == 4
+//@   fact forall i in 0..len(tmBacktracking) :: 0 <= tmBacktracking[i] && tmBacktracking[i] < 18
+//@   fact forall i in 0..len(tmBacktracking) :: i % 2 == 0 ==> tmBacktracking[i] >= 2
+
+//@ table tmToken
+//@   fact len(tmToken) == 18
+// only rule 1 maps to the EOI token
+//@   fact forall i in 0..len(tmToken) :: i != 1 ==> tmToken[i] != 0
+
+// ---- lexer state ----
+
+// wfLexer: the scanning window is inside the source; ch is the rune at offset (-1 exactly at the
+// end of the source) and scanOffset is just past its encoding; a newline rune is one '\n' byte and
+// no other rune contains that byte; line is one more than the number of newlines before offset.
+//@ pred wfWindow(l *Lexer) = 0 <= l.offset && l.offset <= l.scanOffset && l.scanOffset <= len(l.source) && (l.ch == -1 <==> l.offset == len(l.source)) && (l.offset == len(l.source) ==> l.scanOffset == l.offset) && (l.offset < len(l.source) ==> l.scanOffset > l.offset && l.scanOffset <= l.offset + 4 && 0 <= l.ch && l.ch <= 1114111)
+//@ pred wfChar(l *Lexer) = newlines(l.source, l.offset, l.scanOffset) == (l.ch == 10 ? 1 : 0)
+//@ pred wfLine(l *Lexer) = l.line == 1 + newlines(l.source, 0, l.offset)
+//@ pred wfLexer(l *Lexer) = wfWindow(l) && wfChar(l) && wfLine(l)
+
+// rewind moves the window to `offset` (clamped to the end of the source) and keeps the invariant.
+//@ func Lexer.rewind
+//@   requires 0 <= l.offset && l.offset <= len(l.source) && wfLine(l) && 0 <= offset
+//@   modifies l.ch, l.offset, l.scanOffset, l.line
+//@   ensures wfWindow(l) && wfChar(l) && wfLine(l)
+//@   ensures l.offset == (offset > len(l.source) ? len(l.source) : offset)
+
+//@ func Lexer.Init
+//@   modifies l.source, l.ch, l.offset, l.scanOffset, l.tokenOffset, l.line, l.tokenLine
+//@   ensures wfWindow(l) && wfChar(l) && wfLine(l) && l.source == source
+//@   ensures l.tokenOffset == 0 && (l.offset == 0 || l.offset == 3)
+
+// Next (C12): the invariant is kept; the token starts at or after the old offset and ends at the new
+// one (source order, no overlap); every token except EOI is non-empty; EOI is reported only at the
+// end of the source (and then again on every later call); tokenLine is the line of the token's first
+// byte. The text between the old offset and tokenOffset was consumed by iterations of the restart
+// loop, each of which matched the space rule over a non-empty text (decreases clause of loop 1).
+//@ func Lexer.Next
+//@   requires wfWindow(l) && wfChar(l) && wfLine(l)
+//@   modifies l.ch, l.offset, l.scanOffset, l.tokenOffset, l.line, l.tokenLine, l.value
+//@   ensures wfWindow(l) && wfChar(l) && wfLine(l)
+//@   ensures old(l.offset) <= l.tokenOffset && l.tokenOffset <= l.offset
+//@   ensures result != token.EOI ==> l.tokenOffset < l.offset
+//@   ensures result == token.EOI ==> l.tokenOffset == len(l.source) && l.offset == len(l.source)
+//@   ensures l.tokenLine == 1 + newlines(l.source, 0, l.tokenOffset)
+//@   loop 1:
+//@     invariant wfWindow(l) && wfChar(l) && wfLine(l) && old(l.offset) <= l.offset
+//@     decreases len(l.source) - l.offset
+//@   loop 2:
+//@     invariant wfWindow(l) && wfChar(l) && wfLine(l)
+//@     invariant old(l.offset) <= l.tokenOffset && l.tokenOffset <= l.offset && l.tokenLine == 1 + newlines(l.source, 0, l.tokenOffset)
+//@     invariant -20 <= state && state < 28 && (state <= -3 || state >= 0) && state != -4
+//@     invariant backupRule == -1 || (2 <= backupRule && backupRule < 18 && l.tokenOffset < backupOffset && backupOffset <= l.offset)
+//@     invariant l.offset == l.tokenOffset ==> (state == 0 || state == -3) && backupRule == -1
+//@   loop 3:
+//@     invariant wfWindow(l) && wfChar(l) && wfLine(l)
+//@     invariant old(l.offset) <= l.tokenOffset && l.tokenOffset <= l.offset && l.tokenLine == 1 + newlines(l.source, 0, l.tokenOffset)
+//@     invariant 0 <= rule && rule < 18 && rule != 1 && (rule != 0 ==> l.tokenOffset < l.offset)
+//@     invariant backupRule == -1 || (2 <= backupRule && backupRule < 18 && l.tokenOffset < backupOffset && backupOffset <= len(l.source))
